@@ -39,6 +39,12 @@ type c09W struct {
 	Unobserved []bool `json:"unobserved,omitempty"`
 	// extra numeric windows for the range query (besides the fixed ones)
 	Windows [][2]float64 `json:"windows,omitempty"`
+	// FailListingCommit: the write-back transaction of the per-term count
+	// listings fails with an I/O error (the listing itself must still be right)
+	FailListingCommit bool `json:"fail_listing_commit,omitempty"`
+	// StallUs > 0: the reader of every streamed answer pauses that long
+	// (simulated) after the first item it receives
+	StallUs int `json:"stall_us,omitempty"`
 }
 
 var ixFields = []string{"f", "g.h", "n"}
@@ -61,6 +67,17 @@ func init() {
 // numeric windows of the range query: a fixed set plus the seeded ones of the
 // current workload (set by execC09; a worker runs one case at a time)
 var ixExtraWindows [][2]float64
+
+// per-case query-time faults (set by execC09; a worker runs one case at a time)
+var ixFailCommitDisk *simkv.Disk
+var ixStallUs int
+
+func ixStall(n int) {
+	if ixStallUs > 0 && n == 1 {
+		simrt.Probe("reader of a streamed index answer stalled")
+		sleepSim(ixStallUs)
+	}
+}
 
 func ixWindows() [][2]float64 {
 	return append([][2]float64{{-3, 3}, {-1e10, 0.75}, {0.25, 1e10}, {-2, -0.5}, {1.5, 1e300}}, ixExtraWindows...)
@@ -109,6 +126,10 @@ func genC09(r *Rng, tier string) *c09W {
 		}
 	}
 	quiet := avoid && r.Chance(60)
+	w.FailListingCommit = r.Chance(10)
+	if r.Chance(10) {
+		w.StallUs = []int{7000000, 120000000}[r.Intn(2)]
+	}
 	bounds := []float64{-1e9, -2.5, -1, -0.25, 0, 0.25, 0.5, 1, 1.5, 2, 1e9, -3}
 	for i := 0; i < r.Intn(4); i++ {
 		a, b := bounds[r.Intn(len(bounds))], bounds[r.Intn(len(bounds))]
@@ -242,6 +263,7 @@ func ixQueryReal(idx *kvindex.KVIndex) map[string]string {
 				if !ok {
 					break
 				}
+				ixStall(len(out) + 1)
 				if c.String != "" {
 					out = append(out, fmt.Sprintf("s:%s=%d", c.String, c.Count))
 				} else {
@@ -251,8 +273,17 @@ func ixQueryReal(idx *kvindex.KVIndex) map[string]string {
 			sort.Strings(out)
 			return strings.Join(out, ",")
 		}
-		o["term-counts("+f+")"] = tc(idx.FieldTermCounts(f))
-		o["string-term-counts("+f+")"] = tc(idx.FieldStringTermCounts(f))
+		listing := func(key string, start func() chan kvindex.KVTermCount) {
+			if ixFailCommitDisk != nil {
+				ixFailCommitDisk.Arm(-1, 0, false) // the next top-level write (the listing's write-back) fails
+			}
+			o[key] = tc(start())
+			if ixFailCommitDisk != nil {
+				ixFailCommitDisk.Disarm()
+			}
+		}
+		listing("term-counts("+f+")", func() chan kvindex.KVTermCount { return idx.FieldTermCounts(f) })
+		listing("string-term-counts("+f+")", func() chan kvindex.KVTermCount { return idx.FieldStringTermCounts(f) })
 		o["number-min("+f+")"] = fnum(idx.FieldTermNumberMin(f))
 		o["number-max("+f+")"] = fnum(idx.FieldTermNumberMax(f))
 		var nums []string
@@ -276,6 +307,7 @@ func ixQueryReal(idx *kvindex.KVIndex) map[string]string {
 					break
 				}
 				out = append(out, fmt.Sprintf("%s=%d", fnum(c.Number), c.Count))
+				ixStall(len(out))
 			}
 			sort.Strings(out)
 			o[fmt.Sprintf("number-range(%s,%s,%s)", f, fnum(wdw[0]), fnum(wdw[1]))] = strings.Join(out, ",")
@@ -338,9 +370,21 @@ func execC09(w *c09W, x *Exec) *Outcome {
 		cfg.MaxSteps = 3000000
 	}
 	ixExtraWindows = w.Windows
+	ixStallUs = w.StallUs
+	ixFailCommitDisk = nil
+	defer func() { ixStallUs, ixFailCommitDisk = 0, nil }()
+	if w.StallUs > 0 {
+		o.Count("fault:stalled_reader", 1)
+	}
+	if w.FailListingCommit {
+		o.Count("fault:listing_write_back_fails", 1)
+	}
 	res := x.Bubble(cfg, func(s *simrt.Sim) func() bool {
 		simrt.Go("client:index", func() {
 			disk := simkv.NewDisk()
+			if w.FailListingCommit {
+				ixFailCommitDisk = disk
+			}
 			idx := kvindex.NewIndex(disk.Open())
 			m := model.NewRefIndex()
 			docsBeforeField := false
